@@ -211,6 +211,27 @@ Theorem C15_refusal_free_histories_are_the_model : forall ops s, xrun s (map XOp
 Proof. exact xrun_embeds. Qed.
 Print Assumptions C15_refusal_free_histories_are_the_model.
 
+(* A TRANSIENT write failure (XDecidedRefusedOnce: only the first storage call that writes is refused): the
+   runner saves the decided message of its running instance a second time after the controller did, so the
+   decision of the running duty is in the highest record afterwards all the same. *)
+Theorem C15_transient_failure_keeps_running_decision : forall f ops s h m l i s' r,
+  run (init f) ops = s ->
+  rn s = RRunning h -> height (ct s) <= h ->
+  find_inst (insts (ct s)) h = Some i -> i_decided i = false ->
+  xstep s (XDecidedRefusedOnce h m true l) = (s', r) ->
+  r = DOk /\ exists rec, highest (store s') = Some rec /\ st_height rec = h.
+Proof. exact transient_failure_keeps_running_decision. Qed.
+Print Assumptions C15_transient_failure_keeps_running_decision.
+
+(* duty 10 running and decided by an aggregated message whose first write fails: stored all the same; the same
+   message for a duty that is NOT running (12) is saved once only and the transient failure loses the record *)
+Example C15_transient_failure_example :
+  let s := xrun (init fx_light) [XOp (OStart 10); XDecidedRefusedOnce 10 (c 1 [1; 2; 3]) true true] in
+  let s2 := xrun (init fx_light) [XOp (OStart 10); XDecidedRefusedOnce 12 (c 1 [1; 2; 3]) true true] in
+  (exists rec, highest (store s) = Some rec /\ st_height rec = 10) /\
+  highest (store s2) = None /\ height (ct s2) = 12.
+Proof. vm_compute. split; [eexists; split; reflexivity|split; reflexivity]. Qed.
+
 (* duty 10 running, decided(12) arrives while writes are refused: height 12, nothing stored, duty 11 refused *)
 Example C15_refused_write_example :
   let s := xrun (init fx_light) [XOp (OStart 10); XDecidedRefused 12 (c 1 [1; 2; 3]) true true] in
